@@ -701,6 +701,8 @@ def run(ctx):
     from .core import Facts
     for cfg in cfgs:
         facts = ctx.facts(cfg)
+        from . import x_verdict
+        x_verdict.per_element(ctx, facts, cfg)
         path = ctx.fact_paths[(cfg, "jsonlogic_rs", "debug")]
         raw = facts if not ctx.inline_set else Facts(path)
         sub = Ctx(ctx.prop, ctx.tier, ctx.level)
